@@ -2,7 +2,7 @@
 # usage: run_seed.sh <seed id> <property ids...> : apply the seeded patch to /repo, run the checks, undo
 ID=$1; shift
 cd /verif
-git -C /repo apply seeded/$ID/patch.diff || { echo "cannot apply"; exit 2; }
+git -C /repo apply /verif/seeded/$ID/patch.diff || { echo "cannot apply"; exit 2; }
 for P in "$@"; do
   OUT=$(./check $P --tier quick 2>&1 | grep -E "^(VIOLATION|OK|KNOWN|TOOL)" | head -3 | tr '\n' ' ')
   echo "SEED $ID check $P: $OUT"
